@@ -15,7 +15,7 @@ func (g *Grammar) Clone() *Grammar {
 func (p *Prod) normalise() {
 	used := map[int]bool{}
 	p.Expr.Walk(func(e *Expr) {
-		if e.Kind == KCap || e.Kind == KSub {
+		if e.Kind == KCap || e.Kind == KSub || e.Kind == KPars {
 			used[e.Field] = true
 		}
 	})
@@ -28,7 +28,7 @@ func (p *Prod) normalise() {
 		}
 	}
 	p.Expr.Walk(func(e *Expr) {
-		if e.Kind == KCap || e.Kind == KSub {
+		if e.Kind == KCap || e.Kind == KSub || e.Kind == KPars {
 			e.Field = remap[e.Field]
 		}
 	})
@@ -93,7 +93,7 @@ func (g *Grammar) candidates(yield func(*Grammar) bool) {
 					if target == nil || k >= len(target.Kids) {
 						return false
 					}
-					if target.Kind == KCap || target.Kind == KSub {
+					if target.Kind == KCap || target.Kind == KSub || target.Kind == KPars {
 						return false // keep captures (their field bookkeeping) intact
 					}
 					repl := target.Kids[k]
